@@ -10,6 +10,7 @@ import Rox.Lemmas.RoundTrip
 import Rox.Lemmas.RoundTrip2
 import Rox.Lemmas.RoundTrip4
 import Rox.Lemmas.RoundTrip5
+import Rox.Lemmas.MirrorAll
 import Rox.Lemmas.Emits
 import Rox.Props.C01
 
@@ -283,5 +284,26 @@ example : Rox.Spec.Canon5.docOk5 Generated.tables
       name := [114, 195, 169, 95, 228, 184, 173], attrs := [([97, 194, 183, 49], [195, 169])],
       kids := [.text [240, 159, 152, 128]], post := [], ws := [] } = true := by
   decide +kernel
+
+/-- **The tree mirrors the document — for EVERY accepted input** (every valid UTF-8 input, the
+default `allow_dtd = false`, every node limit, with or without positions; not only the renderings of
+the classes above): if `parse` returns a tree, the input is the concrete syntax (`RDoc`) of a
+well-formed abstract document `x` (`Rox.Spec.Grammar`), and the arena, read back in id order, is the
+root node followed by exactly the nodes of `docTree x` (`Rox.Spec.Mirror`) in document order — the
+document's elements, comments and processing instructions with the same nesting and left-to-right
+order and besides them only text nodes; local names, comment bodies, PI targets and values (without
+leading white space, `None` when empty) are the exact source strings; the XML declaration yields no
+node; comments and PIs of prolog and epilog are children of the root node in source order; every
+maximal run of character data and CDATA sections is one text node holding its XML-defined decoding;
+attributes are the non-declaration attributes in source order with normalised values. -/
+theorem accepted_tree_mirrors (txt : Bytes) (hv : ValidUtf8 txt) (opt : Opt)
+    (hdtd : opt.allowDtd = false) (d : Doc) (h : parse Generated.tables txt opt = .ok d) :
+    ∃ x : Rox.Spec.Grammar.GDoc, Rox.Spec.Grammar.GDocWf Generated.tables x ∧
+      Rox.Spec.Mirror.DocNormal Generated.tables x ∧ Rox.Spec.Grammar.RDoc Generated.tables x txt ∧
+      d.nodes.toList.map (Rox.Spec.Mirror.viewM d) =
+        (none, Rox.Spec.Canon4.YKind.root) ::
+          Rox.Spec.Canon4.expectAllY 0 1 (Rox.Spec.Mirror.docTree x) :=
+  Rox.Lemmas.accepted_tree_mirrors Generated.tables C01.generated_tables_ok
+    Rox.Lemmas.generated_tables_grammar txt hv opt hdtd d h
 
 end Rox.Props.C03
